@@ -92,15 +92,15 @@ class Flow(object):
         # type: () -> str
         return 'Flow({}, {})'.format(self.hint, self._names)
 
-    def add_name(self, name):
-        # type: (Name) -> None
+    def add_name(self, name, local=True):
+        # type: (Name, bool) -> None
         name.scope = self.scope
-        if name.name in self.scope.globals:
+        if local and name.name in self.scope.globals:
             self.scope.top.add_global(name)
         else:
             # a name declared nonlocal is rebound here but stays a variable
             # of the enclosing function: reads before this binding resolve outward
-            if name.name not in self.scope.nonlocals:
+            if local and name.name not in self.scope.nonlocals:
                 self.scope.locals.add(name.name)
             insert_loc(self._names, name)
 
